@@ -10,6 +10,51 @@ CMPS = {'CLt': '<', 'CLe': '<=', 'CGt': '>', 'CGe': '>='}
 STR_ALPHABET = ['a', 'b', 'c', 'B', 'é', '😀', 'z']
 
 
+# ---------------------------------------------------------------- types of formal parameters
+TANY = ('t', 'Any')
+COQ_S = {'Any': 'SAny', 'Null': 'SNull', 'number': 'SNumber', 'string': 'SString', 'boolean': 'SBoolean'}
+
+
+def ftype(t):
+    if t[0] == 't':
+        return t[1]
+    if t[0] == 'tlist':
+        return 'list<%s>' % ftype(t[1])
+    if t[0] == 'tctx':
+        return 'context<%s>' % ', '.join('%s: %s' % (NAMES[k], ftype(x)) for k, x in t[1])
+    return 'function<%s> -> %s' % (', '.join(ftype(x) for x in t[1]), ftype(t[2]))
+
+
+def ctype(t):
+    M = 'C16.Model.'
+    if t[0] == 't':
+        return '(%sTS %s%s)' % (M, M, COQ_S[t[1]])
+    if t[0] == 'tlist':
+        return '(%sTList %s)' % (M, ctype(t[1]))
+    if t[0] == 'tctx':
+        return '(%sTCtx [%s])' % (M, '; '.join('(%d%%N, %s)' % (k, ctype(x)) for k, x in sorted(t[1])))
+    return '(%sTFun [%s] %s)' % (M, '; '.join(ctype(x) for x in t[1]), ctype(t[2]))
+
+
+def param(p):
+    """a formal parameter is an id (untyped = Any) or (id, type)"""
+    return (p, TANY) if isinstance(p, int) else p
+
+
+KIND_TYPES = {
+    'num': [('t', 'number'), TANY, ('tlist', ('t', 'number')), ('t', 'string')],
+    'str': [('t', 'string'), TANY, ('tlist', ('t', 'string')), ('t', 'number')],
+    'bool': [('t', 'boolean'), TANY, ('t', 'number')],
+    'lnum': [('tlist', ('t', 'number')), ('tlist', TANY), TANY, ('t', 'number'), ('tlist', ('t', 'string'))],
+    'lstr': [('tlist', ('t', 'string')), TANY],
+    'ctx': [('tctx', ((101, TANY),)), ('tctx', ()), TANY, ('tctx', ((101, ('t', 'number')),)), ('t', 'number')],
+    'lctx': [('tlist', TANY), TANY, ('tlist', ('tctx', ()))],
+    'any': [TANY],
+    'fun1': [('tfun', (('t', 'number'),), TANY), ('tfun', (TANY,), TANY), TANY],
+    'fun2': [TANY],
+}
+
+
 # ---------------------------------------------------------------- rendering
 def fstr(s):
     return '"' + s + '"'
@@ -53,7 +98,7 @@ def feel(e):
     if k in ('some', 'every'):
         return '(%s %s satisfies %s)' % (k, ', '.join('%s in %s' % (NAMES[n], feel(d)) for n, d in e[1]), feel(e[2]))
     if k == 'fun':
-        return '(function(%s) %s)' % (', '.join(NAMES[p] for p in e[1]), feel(e[2]))
+        return '(function(%s) %s)' % (', '.join(NAMES[p] if isinstance(p, int) else '%s: %s' % (NAMES[p[0]], ftype(p[1])) for p in e[1]), feel(e[2]))
     if k == 'call':
         return '%s(%s)' % (fcallee(e[1]), ', '.join(feel(a) for a in e[2]))
     if k == 'calln':
@@ -126,7 +171,7 @@ def coq(e):
     if k == 'every':
         return '(EEvery [%s] %s)' % ('; '.join('(%d%%N, %s)' % (n, coq(d)) for n, d in e[1]), coq(e[2]))
     if k == 'fun':
-        return '(EFun [%s] %s)' % ('; '.join('%d%%N' % p for p in e[1]), coq(e[2]))
+        return '(EFun [%s] %s)' % ('; '.join('(%d%%N, %s)' % (param(p)[0], ctype(param(p)[1])) for p in e[1]), coq(e[2]))
     if k == 'call':
         return '(ECall %s [%s])' % (coq(e[1]), '; '.join(coq(a) for a in e[2]))
     if k == 'calln':
@@ -255,6 +300,13 @@ class Gen:
             env2[p] = kind
             body = self.gen(kind, d - 1, {p: kind}) if r.random() < 0.8 else self.gen(kind, d - 1, env2)
             arg = self.gen(kind, d - 1, env)
+            if r.random() < 0.4:       # a declared parameter type: the argument is coerced (identity / singleton wrap / unwrap / null)
+                tp = r.choice(KIND_TYPES.get(kind, [TANY]))
+                if r.random() < 0.25:
+                    arg = ('list', (arg,))                      # unwrap candidate
+                if r.random() < 0.5:
+                    return ('call', ('fun', ((p, tp),), body), (arg,))
+                return ('calln', ('fun', ((p, tp),), body), ((p, arg),))
             if r.random() < 0.3:
                 return ('calln', ('fun', (p,), body), ((p, arg),))
             c2 = r.random()
